@@ -188,56 +188,90 @@ def _drive_symg(c):
 
 
 # ---------------------------------------------------------- (d) polynomials
+_PARAM = "p"          # a parameter coefficient [k = "sym", n = i] is the pymbolic Variable("p<i>")
+
+
+def _coef_from_json(j):
+    import pymbolic.primitives as prim
+    if j["k"] == "sym":
+        return prim.Variable(f"{_PARAM}{j['n']}")
+    return ser.json_to_val(j)
+
+
+def _coef_to_json(v):
+    import pymbolic.primitives as prim
+    if isinstance(v, prim.Variable) and v.name.startswith(_PARAM) and v.name[len(_PARAM):].isdigit():
+        return {"k": "sym", "n": int(v.name[len(_PARAM):]), "d": 1}
+    return ser.val_to_json(v)
+
+
 def _mkpoly(data):
     import pymbolic.primitives as prim
     from pymbolic.polynomial import Polynomial
-    return Polynomial(prim.Variable("x"), tuple((e["e"], ser.json_to_val(e["c"])) for e in data))
+    return Polynomial(prim.Variable("x"), tuple((e["e"], _coef_from_json(e["c"])) for e in data))
 
 
-def _polyobs(st, r):
+def _polyobs(st, r, arg=None):
+    """What is seen of a returned polynomial: data tuple, name of the base variable, and
+    (mapper results) whether it is the very object that was passed in."""
+    import pymbolic.primitives as prim
     from pymbolic.polynomial import Polynomial
     if st != "ok":
         return {"r": st, "e": r}
     if not isinstance(r, Polynomial):
         return {"r": "other", "e": type(r).__name__}
     try:
-        data = [{"e": e, "c": ser.val_to_json(cf_)} for e, cf_ in r.data]
+        data = [{"e": e, "c": _coef_to_json(cf_)} for e, cf_ in r.data]
         if not all(type(d["e"]) is int for d in data):
             return {"r": "other", "e": "non-integer exponent"}
+        base = r.base.name if isinstance(r.base, prim.Variable) else "?"
     except Exception as exc:  # noqa: BLE001
         return {"r": "other", "e": type(exc).__name__}
-    return {"r": "poly", "d": data}
+    return {"r": "poly", "d": data, "b": base, "id": 1 if r is arg else 0}
 
 
-def _mapper(name):
+def _mapper(c):
+    """The IdentityMapper subclass described by the case: constant rule c["map"] applied to all
+    constants or only to those equal to a member of c["msel"] (every other constant is handed
+    back as it is), base variable x renamed to c["mbase"], parameter p<i> bound to c["mbind"][i-1]."""
+    import pymbolic.primitives as prim
     from pymbolic.mapper import IdentityMapper
 
-    class Dbl(IdentityMapper):
+    rule = {"dbl": lambda v: 2 * v, "neg": lambda v: -v, "inc": lambda v: v + 1,
+            "half": lambda v: v // 2 if type(v) is int and v % 2 == 0 else v,
+            "keep": lambda v: v}[c["map"]]
+    every = c["mmode"] == "all"
+    sel = [ser.json_to_val(v) for v in c["msel"]]
+    base = c["mbase"]
+    bind = {f"{_PARAM}{i + 1}": ser.json_to_val(v) for i, v in enumerate(c["mbind"])}
+
+    class CaseMapper(IdentityMapper):
         def map_constant(self, expr):
-            return 2 * expr
+            if every or any(expr == v for v in sel):
+                return rule(expr)
+            return expr
 
-    class Neg(IdentityMapper):
-        def map_constant(self, expr):
-            return -expr
+        def map_variable(self, expr):
+            if expr.name == "x" and base != "x":
+                return prim.Variable(base)
+            if expr.name in bind:
+                return bind[expr.name]
+            return expr
 
-    class Inc(IdentityMapper):
-        def map_constant(self, expr):
-            return expr + 1
-
-    return {"dbl": Dbl, "neg": Neg, "inc": Inc}[name]()
+    return CaseMapper()
 
 
-def _values(obj, pts, default=False):
-    """obj evaluated at every point: the uncached EvaluationMapper, or pymbolic.evaluate()
-    (the default, memoising entry point)."""
+def _values(obj, pts, name, default=False):
+    """obj evaluated with the variable `name` at every point: the uncached EvaluationMapper, or
+    pymbolic.evaluate() (the default, memoising entry point)."""
     import pymbolic
     from pymbolic.mapper.evaluator import EvaluationMapper
     out = []
     for pt in pts:
         if default:
-            out.append(ser.call_to_json(lambda: pymbolic.evaluate(obj, {"x": pt})))  # noqa: B023
+            out.append(ser.call_to_json(lambda: pymbolic.evaluate(obj, {name: pt})))  # noqa: B023
         else:
-            out.append(ser.call_to_json(lambda: EvaluationMapper({"x": pt})(obj)))  # noqa: B023
+            out.append(ser.call_to_json(lambda: EvaluationMapper({name: pt})(obj)))  # noqa: B023
     return out
 
 
@@ -250,30 +284,31 @@ def _drive_poly(c):
     Q = _mkpoly(c["Q"]) if two else None
     s = ser.json_to_val(c["s"])
     k = c["k"]
+    bn = c["mbase"]          # the name of the base variable of the operands of the operation
     o = {"mp": {"r": "same"}, "mq": {"r": "same"}, "res": [], "vp": [], "vq": [], "vr": [], "vd": []}
     n_eval = 0
     if c["map"] != "none":
-        st, r = _timed(lambda: _mapper(c["map"])(P))
-        o["mp"] = _polyobs(st, r)
+        st, r = _timed(lambda: _mapper(c)(P))
+        o["mp"] = _polyobs(st, r, P)
         n_eval += 1
         if o["mp"]["r"] == "poly":
             P = r
         if two:
-            st, r = _timed(lambda: _mapper(c["map"])(Q))
-            o["mq"] = _polyobs(st, r)
+            st, r = _timed(lambda: _mapper(c)(Q))
+            o["mq"] = _polyobs(st, r, Q)
             n_eval += 1
             if o["mq"]["r"] == "poly":
                 Q = r
-    o["vp"] = _values(P, pts)
+    o["vp"] = _values(P, pts, bn)
     if two:
-        o["vq"] = _values(Q, pts)
+        o["vq"] = _values(Q, pts, bn)
     thunks = {
         "add": lambda: P + Q, "sub": lambda: P - Q, "mul": lambda: P * Q,
         "divmod": lambda: divmod(P, Q),
         "adds": lambda: P + s, "radds": lambda: s + P, "subs": lambda: P - s,
         "rsubs": lambda: s - P, "muls": lambda: P * s, "rmuls": lambda: s * P,
         "divmods": lambda: divmod(P, s), "pow": lambda: P ** k, "neg": lambda: -P,
-        "mulbase": lambda: P * prim.Variable("x"),
+        "mulbase": lambda: P * prim.Variable(bn),
     }
     st, r = _timed(thunks[op])
     n_eval += 1
@@ -288,9 +323,9 @@ def _drive_poly(c):
         results = [r] if st == "ok" else []
         o["res"] = [_polyobs(st, r)]
     if results and all(x["r"] == "poly" for x in o["res"]):
-        o["vr"] = [_values(x, pts) for x in results]
+        o["vr"] = [_values(x, pts, bn) for x in results]
         if c.get("dv"):
-            o["vd"] = _values(results[0], pts, default=True)
+            o["vd"] = _values(results[0], pts, bn, default=True)
     n_eval += len(pts) * (len(o["vr"]) + (1 if o["vd"] else 0) + 1 + (1 if two else 0))
     return o, n_eval
 
@@ -406,7 +441,7 @@ def signature(rec, f):
     if part == "fft":
         return {"clause": cl, "kind": at, "n": c["n"]}
     if part == "poly":
-        if cl == "map-coeffs":
+        if cl in ("map-coeffs", "map-base", "map-value"):
             return {"clause": cl, "at": at}
         if cl in ("op-coeffs", "op-value", "evaluate-default-value"):
             return {"clause": "op-result", "op": c["op"], "at": at}
@@ -434,6 +469,9 @@ ALGO_CONTROLS = {
     "drop_last": "PowResult", "no_square": "PowLoopInv", "accept_negative": "PowRefusal",
     "swap_forgot": "EuResult", "wrong_T": "EuBezoutInv", "stride": "FFTResult",
     "twiddle": "FFTResult",
+    # IdentityMapper.map_polynomial: which parts decide "return the argument"
+    "flag_overwritten": "MapFlagInv", "flag_overwritten_result": "MapResult", "base_ignored": "MapResult",
+    "any_for_all": "MapResult", "generator_consumed": "MapResult",
 }
 
 
@@ -470,50 +508,64 @@ def _judge(recs, wd, name="c19", quick=True):
 
 
 def _corrupt(rec):
-    """Trace corruption control: flip one recorded field; the judge must reject it."""
+    """Trace corruption control: flip one recorded field; the judge must reject it.
+    (label, corrupted record, clause that must reject it) or (None, None, None)"""
     r = json.loads(json.dumps(rec))
     part, o = r["part"], r["o"]
     if part == "pow" and o["r"] == "ok" and o["t"] == "mon" and r["c"]["mon"] == "zm" and r["c"]["n"] >= 1:
         o["v"] = [(o["v"][0] + 1) % r["c"]["m"]]
-        return r, "pow-value"
+        return part, r, "pow-value"
     if part == "euclid" and o["ee"]["r"] == "ok" and r["c"]["q"] != 0:
         o["ee"]["v"][1]["n"] += 1
-        return r, "ee-bezout"
+        return part, r, "ee-bezout"
     if part == "fft" and o["r"] == "ok" and r["c"]["n"] >= 3:
         o["y"][2] = (o["y"][2] + 1) % r["c"]["p"]
-        return r, "fft-value"
+        return part, r, "fft-value"
     if part == "poly" and r["c"]["op"] == "add" and r["c"]["map"] == "none" and o["res"] \
             and o["res"][0]["r"] == "poly" and o["res"][0]["d"]:
         o["res"][0]["d"][0]["c"]["n"] += 1
-        return r, "op-coeffs"
+        return part, r, "op-coeffs"
+    # a mapper that rewrites only some coefficients "returned its argument": the recorded mapper
+    # result is replaced by the unmapped operand
+    if part == "poly" and r["c"]["map"] != "none" and r["c"]["mmode"] == "only" and o["mp"]["r"] == "poly" \
+            and r["c"]["mbase"] == "x" and o["mp"]["d"] != r["c"]["P"] and len(r["c"]["P"]) >= 3:
+        o["mp"]["d"] = r["c"]["P"]
+        o["mp"]["id"] = 1
+        return "poly-mapper-coeffs", r, "map-coeffs"
+    # ... "did not rename the base"
+    if part == "poly" and r["c"]["map"] != "none" and o["mp"]["r"] == "poly" and r["c"]["mbase"] != "x" \
+            and o["mp"]["b"] == r["c"]["mbase"]:
+        o["mp"]["b"] = "x"
+        return "poly-mapper-base", r, "map-base"
     if part == "quot" and r["c"]["d"] not in (0, 1, -1) and o["evx"].get("k") in ("int", "frac"):
         o["evx"]["n"] += 1
-        return r, "quot-exact-value"
-    return None, None
+        return part, r, "quot-exact-value"
+    return None, None, None
 
 
 def _corrupted_records(recs, first_id):
-    """One corrupted copy per part (ids from first_id on) with the clause that must reject it."""
+    """One corrupted copy per kind of corruption (ids from first_id on) with the clause that must
+    reject it."""
     picked, seen = [], set()
     for r in recs:
-        if r["part"] in seen:
+        if r["part"] in seen and (r["part"] != "poly" or {"poly-mapper-coeffs", "poly-mapper-base"} <= seen):
             continue
-        bad, clause = _corrupt(r)
-        if bad is not None:
-            seen.add(r["part"])
+        label, bad, clause = _corrupt(r)
+        if bad is not None and label not in seen:
+            seen.add(label)
             bad["id"] = first_id + len(picked)
-            picked.append((bad, clause))
+            picked.append((label, bad, clause))
     return picked
 
 
 def _check_corrupted(picked, verdicts):
     byid = {v["id"]: v for v in verdicts}
-    for bad, clause in picked:
+    for label, bad, clause in picked:
         v = byid.get(bad["id"])
         if v is None or clause not in [f["cl"] for f in v.get("fs", [])]:
             raise kit.MachineryError(
-                f"trace-corruption control: corrupted {bad['part']} record was not rejected with {clause}: {v}")
-    return {b["part"]: cl for b, cl in picked}
+                f"trace-corruption control: corrupted {label} record was not rejected with {clause}: {v}")
+    return {label: cl for label, _b, cl in picked}
 
 
 def _classify(recs, verdicts, out, counts):
@@ -574,7 +626,7 @@ def run(tier, seed, out):
     # trace-corruption control: a few recorded observations with one field flipped are judged
     # along with the real ones; TLC must reject each of them with the expected clause
     corrupted = _corrupted_records(recs, len(recs))
-    verdicts, st, tr = _judge(recs + [b for b, _ in corrupted], wd, quick=(tier == "quick"))
+    verdicts, st, tr = _judge(recs + [b for _l, b, _c in corrupted], wd, quick=(tier == "quick"))
     corr = _check_corrupted(corrupted, verdicts)
     verdicts = [v for v in verdicts if v["id"] < len(recs)]
     kit.log(f"C19: TLC judged {len(recs)} records, {len(verdicts)} not plainly OK; "
